@@ -1,8 +1,6 @@
-use vf_world::g_storage::bak;
 use vf_world::srv::*;
 use vf_world::*;
 use kanidmd_lib::prelude::*;
-use kanidmd_lib::verif_hooks::storage as hk;
 fn main() {
     let rt = runtime();
     rt.block_on(async {
@@ -10,23 +8,10 @@ fn main() {
         let mut w = qs.write(ct(1)).await.unwrap();
         w.internal_create(vec![pop::person(pop::person_uuid(0), "p0"), pop::group(pop::group_uuid(0), "g0", &[pop::person_uuid(0)])]).unwrap();
         w.commit().unwrap();
-        let mut w = qs.write(ct(2)).await.unwrap();
-        w.internal_delete(&Filter::new_ignore_hidden(f_eq(Attribute::Name, PartialValue::new_iname("g0")))).unwrap();
-        w.commit().unwrap();
-        let data = {
-            let mut r = qs.read().await.unwrap();
-            println!("orig verify {:?}", hk::qs_verify(&mut r));
-            bak::backup(&mut r, false).unwrap()
-        };
-        let (be, schema) = bak::restore_fresh(&data, false).unwrap();
-        println!("restored");
-        {
-            let mut br = be.read().unwrap();
-            println!("ids {:?}", hk::be::db_ids(&mut br).map(|x| (x.0, x.1, x.2)));
-        }
-        let qs2 = bak::start(be, schema, ct(3)).await.unwrap();
-        println!("started");
-        let mut r = qs2.read().await.unwrap();
-        println!("restored verify {:?}", hk::qs_verify(&mut r));
+        let mut r = qs.read().await.unwrap();
+        let d = dump::dump_all(&mut r).unwrap();
+        println!("{} entries", d.len());
+        println!("{}", serde_json::to_string_pretty(&d[&pop::person_uuid(0)]).unwrap());
+        println!("{}", serde_json::to_string_pretty(&d[&pop::group_uuid(0)]).unwrap());
     });
 }
